@@ -24,6 +24,7 @@ variable {γ : Type} (prog : Prog) (inp : Input)
   (B : γ → Bool → State → Array BtInsn → Prop)
   (QM : γ → Bool → Nat → State → Prop)
   (QF : γ → Bool → State → Prop)
+  (nest : γ → Nat → Nat → State → Nat → Nat → Nat → γ)
 
 /-- Verification condition of one instruction. -/
 def StepVC (g : γ) (fwd : Bool) (ip pos : Nat) (st : State) (bts : Array BtInsn) : Act → Prop
@@ -31,32 +32,63 @@ def StepVC (g : γ) (fwd : Bool) (ip pos : Nat) (st : State) (bts : Array BtInsn
   | .goal p st' => QM g fwd p st'
   | .cont ip' pos' st' bts' => I g fwd ip' pos' st' bts'
   | .back st' bts' => B g fwd st' bts'
-  | .look d neg sg eg k =>
-    sg ≤ eg ∧ eg ≤ st.groups.size ∧
-    ∃ g' : γ, I g' d (ip + 1) pos st #[.exhausted] ∧
-      (∀ e st', QM g' d e st' →
+  | .look d neg sg eg k st1 bts1 =>
+    st1 = st ∧ bts1 = bts ∧ sg ≤ eg ∧ eg ≤ st.groups.size ∧
+    I (nest g ip pos st sg eg k) d (ip + 1) pos st #[.exhausted] ∧
+      (∀ e st', QM (nest g ip pos st sg eg k) d e st' →
         if neg = false then I g fwd k pos st' (pushSavedGroups (st.groups.extract sg eg).toList sg bts)
         else B g fwd { st' with groups := spliceGroups (st.groups.extract sg eg).toList sg st'.groups } bts) ∧
-      (∀ st', QF g' d st' →
+      (∀ st', QF (nest g ip pos st sg eg k) d st' →
         if neg = true then
           I g fwd k pos { st' with groups := spliceGroups (st.groups.extract sg eg).toList sg st'.groups } bts
         else B g fwd { st' with groups := spliceGroups (st.groups.extract sg eg).toList sg st'.groups } bts)
 
-theorem run_rule
+/-- The same with a post-condition `QE` for error results (`QE := True`: partial correctness,
+errors are not excluded; `QE := False`: safety). -/
+def StepVCE (QE : Prop) (g : γ) (fwd : Bool) (ip pos : Nat) (st : State) (bts : Array BtInsn) :
+    Act → Prop
+  | .err _ => QE
+  | .goal p st' => QM g fwd p st'
+  | .cont ip' pos' st' bts' => I g fwd ip' pos' st' bts'
+  | .back st' bts' => B g fwd st' bts'
+  | .look d neg sg eg k st1 bts1 =>
+    st1 = st ∧ bts1 = bts ∧ (¬ (sg ≤ eg ∧ eg ≤ st.groups.size) → QE) ∧
+    ((sg ≤ eg ∧ eg ≤ st.groups.size) → I (nest g ip pos st sg eg k) d (ip + 1) pos st #[.exhausted] ∧
+      (∀ e st', QM (nest g ip pos st sg eg k) d e st' →
+        if neg = false then I g fwd k pos st' (pushSavedGroups (st.groups.extract sg eg).toList sg bts)
+        else B g fwd { st' with groups := spliceGroups (st.groups.extract sg eg).toList sg st'.groups } bts) ∧
+      (∀ st', QF (nest g ip pos st sg eg k) d st' →
+        if neg = true then
+          I g fwd k pos { st' with groups := spliceGroups (st.groups.extract sg eg).toList sg st'.groups } bts
+        else B g fwd { st' with groups := spliceGroups (st.groups.extract sg eg).toList sg st'.groups } bts))
+
+def PostE (QE : Prop) (QM : Nat → State → Prop) (QF : State → Prop) : Outcome → Prop
+  | .matched e st _ _ => QM e st
+  | .failed st _ _ => QF st
+  | .outOfFuel => True
+  | .error _ => QE
+
+def BtPostE (QE : Prop) (I : Nat → Nat → State → Array BtInsn → Prop) (QF : State → Prop) :
+    BtRes → Prop
+  | .resumed ip pos st bts => I ip pos st bts
+  | .exhausted st _ => QF st
+  | .err _ => QE
+
+theorem run_ruleE (QE : Prop)
     (hstep : ∀ g fwd ip pos st bts, I g fwd ip pos st bts →
-      StepVC I B QM QF g fwd ip pos st bts (step prog inp ip pos fwd st bts))
+      StepVCE I B QM QF nest QE g fwd ip pos st bts (step prog inp ip pos fwd st bts))
     (hback : ∀ g fwd st bts, B g fwd st bts →
-      BtPost (I g fwd) (QF g fwd) (tryBacktrack prog inp fwd st bts))
+      BtPostE QE (I g fwd) (QF g fwd) (tryBacktrack prog inp fwd st bts))
     (limit : Nat) :
     ∀ sf g ip pos fwd st bts steps peak, I g fwd ip pos st bts →
-      Post (QM g fwd) (QF g fwd) (run prog inp limit sf ip pos fwd st bts steps peak) := by
+      PostE QE (QM g fwd) (QF g fwd) (run prog inp limit sf ip pos fwd st bts steps peak) := by
   intro sf
   induction sf with
-  | zero => intro g ip pos fwd st bts steps peak _; simp [run, Post]
+  | zero => intro g ip pos fwd st bts steps peak _; simp [run, PostE]
   | succ sf ih =>
     intro g ip pos fwd st bts steps peak hI
     have hbk : ∀ st' bts' steps' peak', B g fwd st' bts' →
-        Post (QM g fwd) (QF g fwd)
+        PostE QE (QM g fwd) (QF g fwd)
           (match tryBacktrack prog inp fwd st' bts' with
             | .err e => .error e
             | .exhausted st _ => .failed st steps' peak'
@@ -64,7 +96,7 @@ theorem run_rule
       intro st' bts' steps' peak' hB
       have h := hback g fwd st' bts' hB
       cases hr : tryBacktrack prog inp fwd st' bts' with
-      | err e => rw [hr] at h; exact h.elim
+      | err e => rw [hr] at h; exact h
       | exhausted st'' b => rw [hr] at h; exact h
       | resumed ip' pos' st'' bts'' => rw [hr] at h; exact ih g ip' pos' fwd st'' bts'' _ _ h
     unfold run
@@ -72,37 +104,78 @@ theorem run_rule
     · trivial
     · have hs := hstep g fwd ip pos st bts hI
       cases hact : step prog inp ip pos fwd st bts with
-      | err e => rw [hact] at hs; exact hs.elim
+      | err e => rw [hact] at hs; exact hs
       | goal p st' => rw [hact] at hs; exact hs
       | cont ip' pos' st' bts' => rw [hact] at hs; exact ih _ _ _ _ _ _ _ _ hs
       | back st' bts' => rw [hact] at hs; exact hbk _ _ _ _ hs
-      | look d neg sg eg k =>
+      | look d neg sg eg k st1 bts1 =>
         rw [hact] at hs
-        obtain ⟨h1, h2, g', hI', hm, hf⟩ := hs
-        have hc : ¬ (sg > eg || eg > st.groups.size) = true := by simp; omega
-        simp only [hc, if_false]
-        have hin := ih g' (ip + 1) pos d st #[.exhausted] (steps + 1)
-          (if peak < bts.size then bts.size else peak) hI'
-        cases hr : run prog inp limit sf (ip + 1) pos d st #[.exhausted] (steps + 1)
-          (if peak < bts.size then bts.size else peak) with
-        | error e => rw [hr] at hin; exact hin.elim
-        | outOfFuel => trivial
-        | matched e st' s' p' =>
-          rw [hr] at hin
-          have := hm e st' hin
-          cases neg with
-          | false => simp only [Bool.not_false, if_true] at this ⊢; exact ih _ _ _ _ _ _ _ _ this
-          | true =>
-            simp only [Bool.not_true, Bool.false_eq_true, if_false] at this ⊢
-            exact hbk _ _ _ _ this
-        | failed st' s' p' =>
-          rw [hr] at hin
-          have := hf st' hin
-          cases neg with
-          | true => simp only [if_true] at this ⊢; exact ih _ _ _ _ _ _ _ _ this
-          | false =>
-            simp only [Bool.false_eq_true, if_false] at this ⊢
-            exact hbk _ _ _ _ this
+        obtain ⟨hs1, hs2, h1, h2⟩ := hs
+        rw [hs1, hs2]
+        simp only
+        split
+        · rename_i hc
+          apply h1
+          simp only [Bool.or_eq_true, decide_eq_true_eq] at hc
+          omega
+        · rename_i hc
+          obtain ⟨hI', hm, hf⟩ := h2 (by
+            simp only [Bool.or_eq_true, decide_eq_true_eq] at hc; omega)
+          have hin := ih (nest g ip pos st sg eg k) (ip + 1) pos d st #[.exhausted] (steps + 1)
+            (if peak < bts.size then bts.size else peak) hI'
+          cases hr : run prog inp limit sf (ip + 1) pos d st #[.exhausted] (steps + 1)
+            (if peak < bts.size then bts.size else peak) with
+          | error e => rw [hr] at hin; exact hin
+          | outOfFuel => trivial
+          | matched e st' s' p' =>
+            rw [hr] at hin
+            have := hm e st' hin
+            cases neg with
+            | false => simp only [Bool.not_false, if_true] at this ⊢; exact ih _ _ _ _ _ _ _ _ this
+            | true =>
+              simp only [Bool.not_true, Bool.false_eq_true, if_false] at this ⊢
+              exact hbk _ _ _ _ this
+          | failed st' s' p' =>
+            rw [hr] at hin
+            have := hf st' hin
+            cases neg with
+            | true => simp only [if_true] at this ⊢; exact ih _ _ _ _ _ _ _ _ this
+            | false =>
+              simp only [Bool.false_eq_true, if_false] at this ⊢
+              exact hbk _ _ _ _ this
+
+theorem run_rule
+    (hstep : ∀ g fwd ip pos st bts, I g fwd ip pos st bts →
+      StepVC I B QM QF nest g fwd ip pos st bts (step prog inp ip pos fwd st bts))
+    (hback : ∀ g fwd st bts, B g fwd st bts →
+      BtPost (I g fwd) (QF g fwd) (tryBacktrack prog inp fwd st bts))
+    (limit : Nat) :
+    ∀ sf g ip pos fwd st bts steps peak, I g fwd ip pos st bts →
+      Post (QM g fwd) (QF g fwd) (run prog inp limit sf ip pos fwd st bts steps peak) := by
+  intro sf g ip pos fwd st bts steps peak hI
+  have := run_ruleE prog inp I B QM QF nest False
+    (fun g fwd ip pos st bts h => by
+      have h' := hstep g fwd ip pos st bts h
+      cases hact : step prog inp ip pos fwd st bts with
+      | look d neg sg eg k st1 bts1 =>
+        rw [hact] at h'
+        exact ⟨h'.1, h'.2.1, fun hn => hn ⟨h'.2.2.1, h'.2.2.2.1⟩, fun _ => h'.2.2.2.2⟩
+      | err e => rw [hact] at h'; exact h'
+      | goal p st' => rw [hact] at h'; exact h'
+      | cont a b c d => rw [hact] at h'; exact h'
+      | back a b => rw [hact] at h'; exact h')
+    (fun g fwd st bts h => by
+      have h' := hback g fwd st bts h
+      cases hr : tryBacktrack prog inp fwd st bts with
+      | err e => rw [hr] at h'; exact h'
+      | exhausted a b => rw [hr] at h'; exact h'
+      | resumed a b c d => rw [hr] at h'; exact h')
+    limit sf g ip pos fwd st bts steps peak hI
+  cases hr : run prog inp limit sf ip pos fwd st bts steps peak with
+  | error e => rw [hr] at this; exact this
+  | matched a b c d => rw [hr] at this; exact this
+  | failed a b c => rw [hr] at this; exact this
+  | outOfFuel => trivial
 
 end Rule
 
@@ -638,6 +711,7 @@ def QMs (prog : Prog) (V : Nat → Prop) (b : Nat) (fwd : Bool) (e : Nat) (st : 
 /-- The verification condition of `run_rule` for the safety invariant. -/
 abbrev SVC (prog : Prog) (A : Bool → Nat → Nat → Prop) (V : Nat → Prop) :=
   StepVC (Inv prog A V) (InvB prog A V) (QMs prog V) (fun _ _ st => StateOK prog V st)
+    (fun _ _ pos _ _ _ _ => pos)
 
 theorem nextOrBt_vc {b : Nat} {fwd : Bool} {ip pos : Nat} {st : State} {bts : Array BtInsn}
     (h : Inv prog A V b fwd ip pos st bts) {r : Except Unit (Option Nat)} (site : String)
@@ -931,9 +1005,9 @@ theorem step_vc (hs : Spec prog inp A V) (hw : wfProg prog = true) {b : Nat} {fw
         apply nextOrBt_vc hI
         exact ⟨_, rfl, fun p hp => hs.backref hA hi hrs.1 hrs.2 hp⟩
   | lookahead neg sg eg k =>
-    simp only [wfInsn, wfLook, Bool.and_eq_true, decide_eq_true_eq] at hwi
-    obtain ⟨⟨⟨⟨h1, h2⟩, _⟩, _⟩, _⟩ := hwi
-    refine ⟨h1, by rw [hst.groups]; exact h2, pos,
+    simp only [wfInsn] at hwi
+    obtain ⟨h1, h2, _, _⟩ := wfLook_spec hwi
+    refine ⟨rfl, rfl, h1, by rw [hst.groups]; exact h2,
       ⟨(hs.look hA).1 hi, MovedLe.refl _ _, hst, stackOK_init _ _⟩, ?_, ?_⟩
     · intro e st' hq
       have hk : A fwd k pos := hctrl _ (by simp [ctrlSuccs])
@@ -958,9 +1032,9 @@ theorem step_vc (hs : Spec prog inp A V) (hw : wfProg prog = true) {b : Nat} {fw
       | true => simp only [if_true]; exact ⟨hk, hb, hst.splice hq sg eg, hsk⟩
       | false => simp only [Bool.false_eq_true, if_false]; exact ⟨hst.splice hq sg eg, hsk⟩
   | lookbehind neg sg eg k =>
-    simp only [wfInsn, wfLook, Bool.and_eq_true, decide_eq_true_eq] at hwi
-    obtain ⟨⟨⟨⟨h1, h2⟩, _⟩, _⟩, _⟩ := hwi
-    refine ⟨h1, by rw [hst.groups]; exact h2, pos,
+    simp only [wfInsn] at hwi
+    obtain ⟨h1, h2, _, _⟩ := wfLook_spec hwi
+    refine ⟨rfl, rfl, h1, by rw [hst.groups]; exact h2,
       ⟨(hs.look hA).2 hi, MovedLe.refl _ _, hst, stackOK_init _ _⟩, ?_, ?_⟩
     · intro e st' hq
       have hk : A fwd k pos := hctrl _ (by simp [ctrlSuccs])
@@ -1024,10 +1098,794 @@ theorem run_safe (hs : Spec prog inp A V) (hw : wfProg prog = true)
     ∀ sf b ip pos fwd st bts steps peak, Inv prog A V b fwd ip pos st bts →
       Post (QMs prog V b fwd) (StateOK prog V) (run prog inp limit sf ip pos fwd st bts steps peak) :=
   run_rule prog inp (Inv prog A V) (InvB prog A V) (QMs prog V) (fun _ _ st => StateOK prog V st)
+    (fun _ _ pos _ _ _ _ => pos)
     (fun _ _ ip _ _ _ h => step_vc hs hw h
       (fun g' _ _ _ hi => absurd hi (noIcaseBackref_spec hnb ip g')))
     (fun g fwd _ _ h => back_vc hs hw g fwd h) limit
 
 end Inv
+
+/-! ## Frame property and restoration of the capture groups after a failed attempt -/
+
+section Frame
+
+/-- Every instruction at which the same run can continue after instruction `ip`. -/
+def allSuccs (prog : Prog) (ip : Nat) : Insn → List Nat
+  | .goal | .justFail => []
+  | .jump t => [t]
+  | .alt s => [ip + 1, s]
+  | .enterLoop _ _ _ _ exit => [ip + 1, exit]
+  | .loopAgain b =>
+    match prog.insns[b]? with
+    | some (.enterLoop _ _ _ _ exit) => [b + 1, exit]
+    | _ => []
+  | .lookahead _ _ _ k | .lookbehind _ _ _ k => [k]
+  | .loop1 _ _ _ => [ip + 2]
+  | _ => [ip + 1]
+
+/-- The capture group written by an instruction. -/
+def groupOf : Insn → Option Nat
+  | .beginCaptureGroup g | .endCaptureGroup g | .resetCaptureGroup g => some g
+  | _ => none
+
+/-- Undo the capture-group records of a stack (top first). -/
+def unwindG : List BtInsn → Array GroupData → Array GroupData
+  | [], gs => gs
+  | .setCaptureGroup id d :: rest, gs => unwindG rest (gs.setIfInBounds id d)
+  | _ :: rest, gs => unwindG rest gs
+
+theorem unwindG_append (l1 l2 : List BtInsn) (gs : Array GroupData) :
+    unwindG (l1 ++ l2) gs = unwindG l2 (unwindG l1 gs) := by
+  induction l1 generalizing gs with
+  | nil => rfl
+  | cons r l1 ih => cases r <;> simp only [List.cons_append, unwindG, ih]
+
+theorem unwindG_size (l : List BtInsn) (gs : Array GroupData) : (unwindG l gs).size = gs.size := by
+  induction l generalizing gs with
+  | nil => rfl
+  | cons r l ih => cases r <;> simp only [unwindG, ih, Array.size_setIfInBounds]
+
+/-- The records an instruction may push. -/
+def RecFrom (prog : Prog) (ip : Nat) (insn : Insn) : BtInsn → Prop
+  | .exhausted => False
+  | .setPosition t _ => t ∈ allSuccs prog ip insn
+  | .setLoopData _ _ => True
+  | .setCaptureGroup id _ => groupOf insn = some id
+  | .enterNonGreedyLoop lip _ _ => lip + 1 ∈ allSuccs prog ip insn
+  | .greedyLoop1Char c _ _ => c ∈ allSuccs prog ip insn
+  | .nonGreedyLoop1Char c _ _ => c ∈ allSuccs prog ip insn
+
+/-- `(st', bts')` extends `(st, bts)` by records whose undoing restores the groups of `st`. -/
+def Ext (prog : Prog) (ip : Nat) (insn : Insn) (st : State) (bts : Array BtInsn) (st' : State)
+    (bts' : Array BtInsn) : Prop :=
+  ∃ recs, bts'.toList = bts.toList ++ recs ∧ unwindG recs.reverse st'.groups = st.groups ∧
+    st'.groups.size = st.groups.size ∧
+    (∀ g : Nat, groupOf insn ≠ some g → st'.groups[g]? = st.groups[g]?) ∧
+    ∀ r ∈ recs, RecFrom prog ip insn r
+
+theorem Ext.refl (prog : Prog) (ip : Nat) (insn : Insn) (st : State) (bts : Array BtInsn) :
+    Ext prog ip insn st bts st bts :=
+  ⟨[], by simp, rfl, rfl, fun _ _ => rfl, fun r h => by cases h⟩
+
+/-- What one instruction does to the groups and to the stack. -/
+def StepFrame (prog : Prog) (ip : Nat) (insn : Insn) (st : State) (bts : Array BtInsn) : Act → Prop
+  | .err _ => True
+  | .goal _ st' => st' = st
+  | .cont ip' _ st' bts' => ip' ∈ allSuccs prog ip insn ∧ Ext prog ip insn st bts st' bts'
+  | .back st' bts' => Ext prog ip insn st bts st' bts'
+  | .look _ neg sg eg k _ _ => insn = .lookahead neg sg eg k ∨ insn = .lookbehind neg sg eg k
+
+variable {prog : Prog} {inp : Input}
+
+theorem nextOrBt_frame {ip : Nat} {insn : Insn} (h1 : ip + 1 ∈ allSuccs prog ip insn)
+    (r : Except Unit (Option Nat)) (site : String) (st : State) (bts : Array BtInsn) :
+    StepFrame prog ip insn st bts (nextOrBt r site ip st bts) := by
+  unfold nextOrBt
+  split
+  · trivial
+  · exact Ext.refl _ _ _ _ _
+  · exact ⟨h1, Ext.refl _ _ _ _ _⟩
+
+theorem setIfInBounds_self {α} (a : Array α) (i : Nat) (x y : α) (h : a[i]? = some y) :
+    (a.setIfInBounds i x).setIfInBounds i y = a := by
+  apply Array.ext_getElem?
+  intro j
+  simp only [Array.getElem?_setIfInBounds, Array.size_setIfInBounds]
+  split
+  · rename_i hij; subst hij
+    have hlt := lt_of_getElem?_eq_some h
+    rw [if_pos hlt, h]
+  · rfl
+
+theorem groupAct_frame {ip : Nat} {insn : Insn} (h1 : ip + 1 ∈ allSuccs prog ip insn) {g : Nat}
+    (hg : groupOf insn = some g) (upd : GroupData → GroupData) (site : String) (pos : Nat)
+    (st : State) (bts : Array BtInsn) :
+    StepFrame prog ip insn st bts (groupAct g upd site ip pos st bts) := by
+  unfold groupAct
+  cases hcg : st.groups[g]? with
+  | none => trivial
+  | some cg =>
+    refine ⟨h1, [.setCaptureGroup g cg], by simp, ?_, by simp, ?_, ?_⟩
+    · simp only [List.reverse_cons, List.reverse_nil, List.nil_append, unwindG]
+      exact setIfInBounds_self _ _ _ _ hcg
+    · intro g' hg'
+      have : g ≠ g' := fun h => hg' (h ▸ hg)
+      simp [Array.getElem?_setIfInBounds, this]
+    · intro r hr
+      simp only [List.mem_singleton] at hr
+      subst hr
+      exact hg
+
+theorem runLoop_frame {ip : Nat} {insn : Insn} (st : State) (bts : Array BtInsn) (id mn : Nat)
+    (mx : Option Nat) (gr : Bool) (exit pos lip : Nat) (hn : groupOf insn = none)
+    (h1 : lip + 1 ∈ allSuccs prog ip insn) (h2 : exit ∈ allSuccs prog ip insn)
+    (st0 : State) (bts0 : Array BtInsn) (hext : Ext prog ip insn st0 bts0 st bts) :
+    StepFrame prog ip insn st0 bts0
+      (match runLoop st bts id mn mx gr exit pos lip with
+        | .err e => .err e
+        | .ok (some nextIp) st bts => .cont nextIp pos st bts
+        | .ok none st bts => .back st bts) := by
+  obtain ⟨recs, hr1, hr2, hr3, hr4, hr5⟩ := hext
+  -- pushing records that do not touch the groups
+  have push : ∀ (st' : State) (new : List BtInsn), st'.groups = st.groups →
+      (∀ r ∈ new, RecFrom prog ip insn r ∧ ∀ id d, r ≠ .setCaptureGroup id d) →
+      ∀ bts' : Array BtInsn, bts'.toList = bts.toList ++ new →
+      Ext prog ip insn st0 bts0 st' bts' := by
+    intro st' new hg hnew bts' hb
+    refine ⟨recs ++ new, by rw [hb, hr1, List.append_assoc], ?_, by rw [hg]; exact hr3,
+      by rw [hg]; exact hr4, ?_⟩
+    · rw [List.reverse_append, unwindG_append, hg]
+      have : unwindG new.reverse st.groups = st.groups := by
+        have hnr : ∀ r ∈ new.reverse, ∀ id d, r ≠ .setCaptureGroup id d :=
+          fun r hr => (hnew r (List.mem_reverse.mp hr)).2
+        generalize new.reverse = l at hnr
+        induction l with
+        | nil => rfl
+        | cons r l ih =>
+          have hl := ih (fun r' hr' => hnr r' (List.mem_cons_of_mem _ hr'))
+          cases r <;> first
+            | exact absurd rfl (hnr _ (List.mem_cons_self) _ _)
+            | (simp only [unwindG]; exact hl)
+      rw [this]; exact hr2
+    · intro r hr
+      rcases List.mem_append.mp hr with h | h
+      · exact hr5 r h
+      · exact (hnew r h).1
+  unfold runLoop
+  cases hld : st.loops[id]? with
+  | none => trivial
+  | some ld =>
+    simp only
+    cases (ld.entry == pos && decide (ld.iters > mn)) with
+    | true => simp only [if_true]; exact push st [] rfl (fun r h => by cases h) bts (by simp)
+    | false =>
+      simp only [Bool.false_eq_true, if_false]
+      cases ltMax ld.iters mx <;> cases decide (ld.iters ≥ mn) <;> simp only []
+      · exact push st [] rfl (fun r h => by cases h) bts (by simp)
+      · exact ⟨h2, push st [] rfl (fun r h => by cases h) bts (by simp)⟩
+      · simp only [prepareToEnterLoop]
+        refine ⟨h1, push _ [.setLoopData id ld] rfl ?_ _ (by simp)⟩
+        intro r hr; simp only [List.mem_singleton] at hr; subst hr
+        exact ⟨trivial, fun _ _ h => by cases h⟩
+      · cases gr with
+        | false =>
+          simp only [Bool.not_false, if_true]
+          refine ⟨h2, push _ [.enterNonGreedyLoop lip ld.entry { ld with entry := pos }] rfl ?_ _
+            (by simp)⟩
+          intro r hr; simp only [List.mem_singleton] at hr; subst hr
+          exact ⟨h1, fun _ _ h => by cases h⟩
+        | true =>
+          simp only [Bool.not_true, Bool.false_eq_true, if_false, prepareToEnterLoop]
+          refine ⟨h1, push _ [.setPosition exit pos, .setLoopData id ld] rfl ?_ _ (by simp)⟩
+          intro r hr
+          simp only [List.mem_cons, List.not_mem_nil, or_false] at hr
+          rcases hr with rfl | rfl
+          · exact ⟨h2, fun _ _ h => by cases h⟩
+          · exact ⟨trivial, fun _ _ h => by cases h⟩
+
+theorem step_frame {ip : Nat} {insn : Insn} (hi : prog.insns[ip]? = some insn) (pos : Nat)
+    (fwd : Bool) (st : State) (bts : Array BtInsn) :
+    StepFrame prog ip insn st bts (step prog inp ip pos fwd st bts) := by
+  unfold step
+  rw [hi]
+  cases insn with
+  | goal => rfl
+  | justFail => exact Ext.refl _ _ _ _ _
+  | char c =>
+    simp only
+    split
+    · exact nextOrBt_frame (by simp [allSuccs]) _ _ _ _
+    · exact Ext.refl _ _ _ _ _
+  | charSet cs => exact nextOrBt_frame (by simp [allSuccs]) _ _ _ _
+  | byteSet bs => exact nextOrBt_frame (by simp [allSuccs]) _ _ _ _
+  | byteSeq bs => exact nextOrBt_frame (by simp [allSuccs]) _ _ _ _
+  | asciiBracket bm => exact nextOrBt_frame (by simp [allSuccs]) _ _ _ _
+  | bracket idx =>
+    simp only
+    split
+    · trivial
+    · exact nextOrBt_frame (by simp [allSuccs]) _ _ _ _
+  | matchAny => exact nextOrBt_frame (by simp [allSuccs]) _ _ _ _
+  | matchAnyExceptLineTerminator => exact nextOrBt_frame (by simp [allSuccs]) _ _ _ _
+  | wordBoundary inv =>
+    simp only [wordBoundaryAct]
+    split
+    · trivial
+    · split
+      · trivial
+      · split
+        · exact ⟨by simp [allSuccs], Ext.refl _ _ _ _ _⟩
+        · exact Ext.refl _ _ _ _ _
+  | wordBoundaryUnicodeICase inv =>
+    simp only [wordBoundaryAct]
+    split
+    · trivial
+    · split
+      · trivial
+      · split
+        · exact ⟨by simp [allSuccs], Ext.refl _ _ _ _ _⟩
+        · exact Ext.refl _ _ _ _ _
+  | startOfLine ml =>
+    simp only [lineAct]
+    split
+    · trivial
+    · exact ⟨by simp [allSuccs], Ext.refl _ _ _ _ _⟩
+    · split
+      · exact ⟨by simp [allSuccs], Ext.refl _ _ _ _ _⟩
+      · exact Ext.refl _ _ _ _ _
+  | endOfLine ml =>
+    simp only [lineAct]
+    split
+    · trivial
+    · exact ⟨by simp [allSuccs], Ext.refl _ _ _ _ _⟩
+    · split
+      · exact ⟨by simp [allSuccs], Ext.refl _ _ _ _ _⟩
+      · exact Ext.refl _ _ _ _ _
+  | jump t => exact ⟨by simp [allSuccs], Ext.refl _ _ _ _ _⟩
+  | beginCaptureGroup g => exact groupAct_frame (by simp [allSuccs]) rfl _ _ _ _ _
+  | endCaptureGroup g => exact groupAct_frame (by simp [allSuccs]) rfl _ _ _ _ _
+  | resetCaptureGroup g => exact groupAct_frame (by simp [allSuccs]) rfl _ _ _ _ _
+  | backRef g ic =>
+    simp only
+    split
+    · trivial
+    · split
+      · split
+        · exact nextOrBt_frame (by simp [allSuccs]) _ _ _ _
+        · exact nextOrBt_frame (by simp [allSuccs]) _ _ _ _
+      · exact ⟨by simp [allSuccs], Ext.refl _ _ _ _ _⟩
+  | lookahead neg sg eg k => exact Or.inl rfl
+  | lookbehind neg sg eg k => exact Or.inr rfl
+  | alt sec =>
+    refine ⟨by simp [allSuccs], [.setPosition sec pos], by simp, rfl, rfl, fun _ _ => rfl, ?_⟩
+    intro r hr; simp only [List.mem_singleton] at hr; subst hr
+    simp [RecFrom, allSuccs]
+  | enterLoop id mn mx gr exit =>
+    simp only
+    cases hld : st.loops[id]? with
+    | none => trivial
+    | some ld =>
+      simp only
+      refine runLoop_frame _ _ id mn mx gr exit pos ip rfl (by simp [allSuccs]) (by simp [allSuccs])
+        st bts ⟨[.setLoopData id ld], by simp, rfl, rfl, fun _ _ => rfl, ?_⟩
+      intro r hr; simp only [List.mem_singleton] at hr; subst hr; trivial
+  | loopAgain bg =>
+    simp only
+    cases hbg : prog.insns[bg]? with
+    | none => trivial
+    | some bi =>
+      cases bi <;> first
+        | trivial
+        | exact runLoop_frame st bts _ _ _ _ _ pos bg rfl (by simp [allSuccs, hbg])
+            (by simp [allSuccs, hbg]) st bts (Ext.refl _ _ _ _ _)
+  | loop1 mn mx g =>
+    simp only
+    cases hr : runScmLoop prog inp fwd bts pos mn mx ip g with
+    | error e => trivial
+    | ok r =>
+      cases r with
+      | none => exact Ext.refl _ _ _ _ _
+      | some t =>
+        obtain ⟨k, p, bts'⟩ := t
+        simp only
+        unfold runScmLoop at hr
+        simp only at hr
+        split at hr
+        · cases hr
+        · cases hr
+        · rename_i mnp mxp heq
+          simp only [Except.ok.injEq, Option.some.injEq, Prod.mk.injEq] at hr
+          obtain ⟨rfl, _, rfl⟩ := hr
+          refine ⟨by simp [allSuccs], ?_⟩
+          split
+          · refine ⟨[if g = true then .greedyLoop1Char (ip + 2) mnp mxp
+                else .nonGreedyLoop1Char (ip + 2) mnp mxp], by simp, ?_, rfl, fun _ _ => rfl, ?_⟩
+            · cases g <;> rfl
+            · intro r hr; simp only [List.mem_singleton] at hr; subst hr
+              cases g <;> simp [RecFrom, allSuccs]
+          · exact Ext.refl _ _ _ _ _
+
+/-! ### Regions: a look-around body and the capture groups it owns -/
+
+/-- Instructions `[lo, hi)`, groups `[gs, ge)`. -/
+structure Region where
+  lo : Nat
+  hi : Nat
+  gs : Nat
+  ge : Nat
+
+/-- `none` is the top-level run (no restriction). -/
+def InR : Option Region → Nat → Prop
+  | none, _ => True
+  | some r, ip => r.lo ≤ ip ∧ ip < r.hi
+
+def GInR : Option Region → Nat → Prop
+  | none, _ => True
+  | some r, g => r.gs ≤ g ∧ g < r.ge
+
+/-- Instruction `j` of a region keeps the run inside the region and writes only groups of the
+region (also through nested look-arounds). -/
+def insnClosed (prog : Prog) (r : Region) (j : Nat) (insn : Insn) : Bool :=
+  (allSuccs prog j insn).all (fun t => r.lo ≤ t && t < r.hi) &&
+  (match groupOf insn with
+   | some g => r.gs ≤ g && g < r.ge
+   | none => true) &&
+  (match insn with
+   | .lookahead _ sg eg _ => r.gs ≤ sg && eg ≤ r.ge
+   | .lookbehind _ sg eg _ => r.gs ≤ sg && eg ≤ r.ge
+   | _ => true)
+
+def bodyClosed (prog : Prog) (r : Region) : Bool :=
+  (List.range (r.hi - r.lo)).all (fun d =>
+    match prog.insns[r.lo + d]? with
+    | some insn => insnClosed prog r (r.lo + d) insn
+    | none => true)
+
+/-- **`lookConfined`**: the body `(ip, continuation)` of every look-around is non-empty, closed
+under control flow, and writes only the groups `start_group..end_group` of the look-around. -/
+def lookConfined (prog : Prog) : Bool :=
+  (List.range prog.insns.size).all (fun ip =>
+    match prog.insns[ip]? with
+    | some (.lookahead _ sg eg k) => ip + 1 < k && bodyClosed prog ⟨ip + 1, k, sg, eg⟩
+    | some (.lookbehind _ sg eg k) => ip + 1 < k && bodyClosed prog ⟨ip + 1, k, sg, eg⟩
+    | _ => true)
+
+def RClosed (prog : Prog) : Option Region → Prop
+  | none => True
+  | some r => bodyClosed prog r = true
+
+theorem rclosed_spec {R : Option Region} (hc : RClosed prog R) {ip : Nat} {insn : Insn}
+    (hin : InR R ip) (hi : prog.insns[ip]? = some insn) :
+    (∀ t ∈ allSuccs prog ip insn, InR R t) ∧ (∀ g, groupOf insn = some g → GInR R g) ∧
+    (∀ neg sg eg k, (insn = .lookahead neg sg eg k ∨ insn = .lookbehind neg sg eg k) →
+      ∀ g, sg ≤ g → g < eg → GInR R g) := by
+  cases R with
+  | none => exact ⟨fun _ _ => trivial, fun _ _ => trivial, fun _ _ _ _ _ _ _ _ => trivial⟩
+  | some r =>
+    simp only [RClosed, bodyClosed, List.all_eq_true, List.mem_range] at hc
+    obtain ⟨h1, h2⟩ := hin
+    have := hc (ip - r.lo) (by omega)
+    rw [show r.lo + (ip - r.lo) = ip by omega, hi] at this
+    simp only [insnClosed, Bool.and_eq_true, List.all_eq_true, decide_eq_true_eq] at this
+    obtain ⟨⟨hs, hg⟩, hl⟩ := this
+    refine ⟨fun t ht => hs t ht, ?_, ?_⟩
+    · intro g hgo; rw [hgo] at hg; simp only [Bool.and_eq_true, decide_eq_true_eq] at hg; exact hg
+    · intro neg sg eg k hins g h1 h2
+      rcases hins with rfl | rfl <;> (simp only [Bool.and_eq_true, decide_eq_true_eq] at hl; exact ⟨by omega, by omega⟩)
+
+theorem lookConfined_spec (hlc : lookConfined prog = true) {ip : Nat} {neg : Bool} {sg eg k : Nat}
+    {insn : Insn} (hi : prog.insns[ip]? = some insn)
+    (hins : insn = .lookahead neg sg eg k ∨ insn = .lookbehind neg sg eg k) :
+    ip + 1 < k ∧ RClosed prog (some ⟨ip + 1, k, sg, eg⟩) := by
+  simp only [lookConfined, List.all_eq_true, List.mem_range] at hlc
+  have := hlc ip (lt_of_getElem?_eq_some hi)
+  rw [hi] at this
+  rcases hins with rfl | rfl <;>
+    (simp only [Bool.and_eq_true, decide_eq_true_eq] at this; exact this)
+
+/-! ### The restoration invariant -/
+
+def recIn (R : Option Region) : BtInsn → Prop
+  | .exhausted => False
+  | .setPosition ip _ => InR R ip
+  | .setLoopData _ _ => True
+  | .setCaptureGroup id _ => GInR R id
+  | .enterNonGreedyLoop ip _ _ => InR R (ip + 1)
+  | .greedyLoop1Char c _ _ => InR R c
+  | .nonGreedyLoop1Char c _ _ => InR R c
+
+/-- `gs` has the size of `G0` and agrees with it on the groups not owned by the region. -/
+def AgreeOut (R : Option Region) (gs G0 : Array GroupData) : Prop :=
+  gs.size = G0.size ∧ ∀ g : Nat, ¬ GInR R g → gs[g]? = G0[g]?
+
+/-- Stack shape and contents for the restoration proof: undoing the whole stack yields the groups
+`G0` with which the run was started. -/
+def RStack (R : Option Region) (G0 : Array GroupData) (st : State) (bts : Array BtInsn) : Prop :=
+  ∃ rest, bts.toList = .exhausted :: rest ∧ (∀ r ∈ rest, recIn R r) ∧
+    unwindG rest.reverse st.groups = G0 ∧ AgreeOut R st.groups G0
+
+def RInv (prog : Prog) (γ : Option Region × Array GroupData) (_fwd : Bool) (ip _pos : Nat)
+    (st : State) (bts : Array BtInsn) : Prop :=
+  RClosed prog γ.1 ∧ InR γ.1 ip ∧ RStack γ.1 γ.2 st bts
+
+def RInvB (prog : Prog) (γ : Option Region × Array GroupData) (_fwd : Bool)
+    (st : State) (bts : Array BtInsn) : Prop :=
+  RClosed prog γ.1 ∧ RStack γ.1 γ.2 st bts
+
+theorem RStack.ext {R : Option Region} {G0 : Array GroupData} {st st' : State}
+    {bts bts' : Array BtInsn} {ip : Nat} {insn : Insn} (h : RStack R G0 st bts)
+    (hext : Ext prog ip insn st bts st' bts')
+    (hs : ∀ t ∈ allSuccs prog ip insn, InR R t) (hg : ∀ g, groupOf insn = some g → GInR R g) :
+    RStack R G0 st' bts' := by
+  obtain ⟨rest, hb, hrec, hun, hag⟩ := h
+  obtain ⟨recs, h1, h2, h3, h4, h5⟩ := hext
+  refine ⟨rest ++ recs, by rw [h1, hb]; rfl, ?_, ?_, ?_⟩
+  · intro r hr
+    rcases List.mem_append.mp hr with h | h
+    · exact hrec r h
+    · have := h5 r h
+      cases r with
+      | exhausted => exact this
+      | setPosition t _ => exact hs t this
+      | setLoopData _ _ => trivial
+      | setCaptureGroup id _ => exact hg id this
+      | enterNonGreedyLoop lip _ _ => exact hs _ this
+      | greedyLoop1Char c _ _ => exact hs c this
+      | nonGreedyLoop1Char c _ _ => exact hs c this
+  · rw [List.reverse_append, unwindG_append, h2]; exact hun
+  · refine ⟨by rw [h3]; exact hag.1, ?_⟩
+    intro g hgn
+    rw [h4 g (fun hh => hgn (hg g hh))]
+    exact hag.2 g hgn
+
+/-! `restoreG`: the effect of undoing the records pushed by `pushSavedGroups`. -/
+
+def restoreG : List GroupData → Nat → Array GroupData → Array GroupData
+  | [], _, gs => gs
+  | cg :: rest, id, gs => (restoreG rest (id + 1) gs).setIfInBounds id cg
+
+theorem pushSavedGroups_toList : ∀ (saved : List GroupData) (id : Nat) (bts : Array BtInsn),
+    ∃ recs, (pushSavedGroups saved id bts).toList = bts.toList ++ recs ∧
+      (∀ r ∈ recs, ∃ i d, r = .setCaptureGroup i d ∧ id ≤ i ∧ i < id + saved.length) ∧
+      ∀ gs, unwindG recs.reverse gs = restoreG saved id gs := by
+  intro saved
+  induction saved with
+  | nil => intro id bts; exact ⟨[], by simp [pushSavedGroups], fun r h => (by cases h), fun gs => rfl⟩
+  | cons cg rest ih =>
+    intro id bts
+    obtain ⟨recs, h1, h2, h3⟩ := ih (id + 1) (bts.push (.setCaptureGroup id cg))
+    refine ⟨.setCaptureGroup id cg :: recs, by simp [pushSavedGroups, h1], ?_, ?_⟩
+    · intro r hr
+      rcases List.mem_cons.mp hr with rfl | hr
+      · exact ⟨id, cg, rfl, Nat.le_refl _, by simp⟩
+      · obtain ⟨i, d, rfl, ha, hb⟩ := h2 r hr
+        exact ⟨i, d, rfl, by omega, by simp only [List.length_cons]; omega⟩
+    · intro gs
+      rw [List.reverse_cons, unwindG_append, h3]
+      rfl
+
+theorem restoreG_getElem? : ∀ (saved : List GroupData) (id : Nat) (gs : Array GroupData) (g : Nat),
+    (restoreG saved id gs)[g]? =
+      if id ≤ g ∧ g < id + saved.length ∧ g < gs.size then saved[g - id]? else gs[g]? := by
+  intro saved
+  induction saved with
+  | nil => intro id gs g; simp [restoreG]; omega
+  | cons cg rest ih =>
+    intro id gs g
+    have hsz : ∀ (l : List GroupData) (i : Nat), (restoreG l i gs).size = gs.size := by
+      intro l
+      induction l with
+      | nil => intro i; rfl
+      | cons c l ihl => intro i; simp [restoreG, ihl]
+    simp only [restoreG, Array.getElem?_setIfInBounds, hsz, ih, List.length_cons]
+    by_cases h : id = g
+    · subst h
+      by_cases h2 : id < gs.size
+      · simp [h2]
+      · simp only [h2, if_false, if_true]
+        rw [Array.getElem?_eq_none (by omega)]
+        simp [h2]
+    · simp only [h, if_false]
+      by_cases h3 : id + 1 ≤ g ∧ g < id + 1 + rest.length ∧ g < gs.size
+      · have : id ≤ g ∧ g < id + (rest.length + 1) ∧ g < gs.size := by omega
+        simp only [h3, this, and_self, if_true]
+        rw [show g - id = (g - (id + 1)) + 1 by omega, List.getElem?_cons_succ]
+      · have : ¬ (id ≤ g ∧ g < id + (rest.length + 1) ∧ g < gs.size) := by omega
+        simp only [h3, this, if_false]
+
+theorem spliceGroups_getElem? : ∀ (saved : List GroupData) (id : Nat) (gs : Array GroupData) (g : Nat),
+    (spliceGroups saved id gs)[g]? =
+      if id ≤ g ∧ g < id + saved.length ∧ g < gs.size then saved[g - id]? else gs[g]? := by
+  intro saved
+  induction saved with
+  | nil => intro id gs g; simp [spliceGroups]; omega
+  | cons cg rest ih =>
+    intro id gs g
+    simp only [spliceGroups, ih, Array.size_setIfInBounds, Array.getElem?_setIfInBounds,
+      List.length_cons]
+    by_cases h : id = g
+    · subst h
+      have : ¬ (id + 1 ≤ id ∧ id < id + 1 + rest.length ∧ id < gs.size) := by omega
+      simp only [this, if_false, if_true]
+      by_cases h2 : id < gs.size
+      · simp [h2]
+      · simp [h2]
+    · simp only [h, if_false]
+      by_cases h3 : id + 1 ≤ g ∧ g < id + 1 + rest.length ∧ g < gs.size
+      · have : id ≤ g ∧ g < id + (rest.length + 1) ∧ g < gs.size := by omega
+        simp only [h3, this, and_self, if_true]
+        rw [show g - id = (g - (id + 1)) + 1 by omega, List.getElem?_cons_succ]
+      · have : ¬ (id ≤ g ∧ g < id + (rest.length + 1) ∧ g < gs.size) := by omega
+        simp only [h3, this, if_false]
+
+/-- Writing back the saved slice into an array that differs from the original only inside the slice
+gives back the original. -/
+theorem restore_eq {G gs : Array GroupData} {sg eg : Nat} (hle : sg ≤ eg) (heg : eg ≤ G.size)
+    (hsz : gs.size = G.size) (hag : ∀ g : Nat, ¬ (sg ≤ g ∧ g < eg) → gs[g]? = G[g]?)
+    (f : List GroupData → Nat → Array GroupData → Array GroupData)
+    (hf : ∀ saved id gs g, (f saved id gs)[g]? =
+      if id ≤ g ∧ g < id + saved.length ∧ g < gs.size then saved[g - id]? else gs[g]?) :
+    f (G.extract sg eg).toList sg gs = G := by
+  apply Array.ext_getElem?
+  intro g
+  rw [hf]
+  have hlen : (G.extract sg eg).toList.length = eg - sg := by simp; omega
+  rw [hlen]
+  by_cases h : sg ≤ g ∧ g < sg + (eg - sg) ∧ g < gs.size
+  · simp only [h, and_self, if_true, Array.getElem?_toList, Array.getElem?_extract]
+    have : g - sg < min eg G.size - sg := by omega
+    simp only [this, if_true]
+    congr 1; omega
+  · simp only [h, if_false]
+    by_cases h2 : g < gs.size
+    · exact hag g (by omega)
+    · rw [Array.getElem?_eq_none (by omega), Array.getElem?_eq_none (by omega)]
+
+theorem arr_snoc {α} {bts : Array α} {l : List α} {top : α} (h : bts.toList = l ++ [top]) :
+    bts.back? = some top ∧ bts.pop.toList = l ∧
+    ∀ x, (bts.setIfInBounds (bts.size - 1) x).toList = l ++ [x] := by
+  have : bts = (l ++ [top]).toArray := by rw [← h]
+  subst this
+  refine ⟨by simp, by simp, ?_⟩
+  intro x
+  simp
+
+/-- The ghost state of a nested look-around run: its body region and the groups at its start. -/
+def rnest (_ : Option Region × Array GroupData) (ip _pos : Nat) (st : State) (sg eg k : Nat) :
+    Option Region × Array GroupData :=
+  (some ⟨ip + 1, k, sg, eg⟩, st.groups)
+
+def RQM (γ : Option Region × Array GroupData) (_fwd : Bool) (_e : Nat) (st : State) : Prop :=
+  AgreeOut γ.1 st.groups γ.2
+
+def RQF (γ : Option Region × Array GroupData) (_fwd : Bool) (st : State) : Prop := st.groups = γ.2
+
+theorem RStack.congr {R : Option Region} {G0 : Array GroupData} {st st' : State} {bts : Array BtInsn}
+    (h : RStack R G0 st bts) (hg : st'.groups = st.groups) : RStack R G0 st' bts := by
+  obtain ⟨rest, h1, h2, h3, h4⟩ := h
+  exact ⟨rest, h1, h2, by rw [hg]; exact h3, by rw [hg]; exact h4⟩
+
+theorem rstep_vc (hlc : lookConfined prog = true) {γ : Option Region × Array GroupData} {fwd : Bool}
+    {ip pos : Nat} {st : State} {bts : Array BtInsn} (h : RInv prog γ fwd ip pos st bts) :
+    StepVCE (RInv prog) (RInvB prog) RQM RQF rnest True γ fwd ip pos st bts
+      (step prog inp ip pos fwd st bts) := by
+  obtain ⟨hc, hin, hstk⟩ := h
+  cases hi : prog.insns[ip]? with
+  | none => unfold step; rw [hi]; trivial
+  | some insn =>
+    have hf := step_frame (inp := inp) hi pos fwd st bts
+    obtain ⟨hs, hg, hl⟩ := rclosed_spec hc hin hi
+    cases hact : step prog inp ip pos fwd st bts with
+    | err e => trivial
+    | goal p st' =>
+      rw [hact] at hf
+      obtain ⟨rest, _, _, _, hag⟩ := hstk
+      have : st' = st := hf
+      subst this
+      exact hag
+    | cont ip' pos' st' bts' =>
+      rw [hact] at hf
+      exact ⟨hc, hs _ hf.1, hstk.ext hf.2 hs hg⟩
+    | back st' bts' =>
+      rw [hact] at hf
+      exact ⟨hc, hstk.ext hf hs hg⟩
+    | look d neg sg eg k st1 bts1 =>
+      rw [hact] at hf
+      have hsb : st1 = st ∧ bts1 = bts := by
+        unfold step at hact
+        rw [hi] at hact
+        rcases hf with rfl | rfl <;> (simp only [Act.look.injEq] at hact; exact ⟨hact.2.2.2.2.2.1.symm, hact.2.2.2.2.2.2.symm⟩)
+      refine ⟨hsb.1, hsb.2, fun _ => trivial, fun hguard => ?_⟩
+      obtain ⟨hlt, hc'⟩ := lookConfined_spec hlc hi hf
+      have hk : InR γ.1 k := hs k (by rcases hf with rfl | rfl <;> simp [allSuccs])
+      have hgr : ∀ g, sg ≤ g → g < eg → GInR γ.1 g := hl neg sg eg k hf
+      have hlen : (st.groups.extract sg eg).toList.length = eg - sg := by simp; omega
+      refine ⟨⟨hc', ⟨Nat.le_refl _, hlt⟩,
+        [], rfl, fun r hr => (by cases hr), rfl, rfl, fun _ _ => rfl⟩, ?_, ?_⟩
+      · intro e st' hq
+        obtain ⟨hsz, hag'⟩ := hq
+        have hag'' : ∀ g : Nat, ¬ (sg ≤ g ∧ g < eg) → st'.groups[g]? = st.groups[g]? := hag'
+        cases neg with
+        | false =>
+          simp only [if_true]
+          refine ⟨hc, hk, ?_⟩
+          obtain ⟨rest, hb, hrec, hun, hag⟩ := hstk
+          obtain ⟨recs, h1, h2, h3⟩ := pushSavedGroups_toList (st.groups.extract sg eg).toList sg bts
+          refine ⟨rest ++ recs, by rw [h1, hb]; rfl, ?_, ?_, ?_⟩
+          · intro r hr
+            rcases List.mem_append.mp hr with h | h
+            · exact hrec r h
+            · obtain ⟨i, dd, rfl, ha, hb'⟩ := h2 r h
+              exact hgr i ha (by omega)
+          · rw [List.reverse_append, unwindG_append, h3,
+              restore_eq hguard.1 hguard.2 hsz hag'' restoreG restoreG_getElem?]
+            exact hun
+          · refine ⟨by rw [hsz]; exact hag.1, ?_⟩
+            intro g hgn
+            rw [hag'' g (fun hh => hgn (hgr g hh.1 hh.2))]
+            exact hag.2 g hgn
+        | true =>
+          simp only [Bool.true_eq_false, if_false]
+          exact ⟨hc, hstk.congr
+            (restore_eq hguard.1 hguard.2 hsz hag'' spliceGroups spliceGroups_getElem?)⟩
+      · intro st' hq
+        have hq' : st'.groups = st.groups := hq
+        have hre : spliceGroups (st.groups.extract sg eg).toList sg st'.groups = st.groups :=
+          restore_eq hguard.1 hguard.2 (by rw [hq']) (fun g _ => by rw [hq']) spliceGroups
+            spliceGroups_getElem?
+        cases neg with
+        | true => simp only [if_true]; exact ⟨hc, hk, hstk.congr hre⟩
+        | false => simp only [Bool.false_eq_true, if_false]; exact ⟨hc, hstk.congr hre⟩
+
+theorem rbackLoop_vc (γ : Option Region × Array GroupData) (fwd : Bool) (hc : RClosed prog γ.1) :
+    ∀ n st bts, RStack γ.1 γ.2 st bts →
+      BtPostE True (RInv prog γ fwd) (RQF γ fwd) (tryBacktrackLoop prog inp fwd n st bts) := by
+  intro n
+  induction n with
+  | zero => intro st bts _; trivial
+  | succ n ih =>
+    intro st bts hstk
+    obtain ⟨rest, hb, hrec, hun, hag⟩ := hstk
+    unfold tryBacktrackLoop
+    rcases List.eq_nil_or_concat rest with rfl | ⟨rest', top, hrt⟩
+    · -- only `Exhausted` is left
+      have := (arr_snoc (l := []) (by simpa using hb)).1
+      rw [this]
+      exact hun
+    · rw [List.concat_eq_append] at hrt
+      subst hrt
+      have hsn : bts.toList = (.exhausted :: rest') ++ [top] := by rw [hb]; simp
+      obtain ⟨hbk, hpop, hset⟩ := arr_snoc hsn
+      rw [hbk]
+      have hrec' : ∀ r ∈ rest', recIn γ.1 r := fun r hr => hrec r (by simp [hr])
+      have htop : recIn γ.1 top := hrec top (by simp)
+      -- the stack below the top, for a state with the same groups
+      have below : ∀ st' : State, st'.groups = st.groups → (∀ id d, top ≠ .setCaptureGroup id d) →
+          ∀ new : List BtInsn, (∀ r ∈ new, recIn γ.1 r ∧ ∀ id d, r ≠ .setCaptureGroup id d) →
+          ∀ bts' : Array BtInsn, bts'.toList = .exhausted :: (rest' ++ new) →
+          RStack γ.1 γ.2 st' bts' := by
+        intro st' hg' hnt new hnew bts' hb'
+        refine ⟨rest' ++ new, hb', ?_, ?_, by rw [hg']; exact hag⟩
+        · intro r hr
+          rcases List.mem_append.mp hr with h | h
+          · exact hrec' r h
+          · exact (hnew r h).1
+        · have h1 : unwindG rest'.reverse st.groups = γ.2 := by
+            rw [List.reverse_append, List.reverse_singleton, List.singleton_append] at hun
+            cases top <;> first
+              | exact absurd rfl (hnt _ _)
+              | exact hun
+          have h2 : unwindG new.reverse st.groups = st.groups := by
+            have hnr : ∀ r ∈ new.reverse, ∀ id d, r ≠ .setCaptureGroup id d :=
+              fun r hr => (hnew r (List.mem_reverse.mp hr)).2
+            generalize new.reverse = l at hnr
+            induction l with
+            | nil => rfl
+            | cons r l ihl =>
+              have hl := ihl (fun r' hr' => hnr r' (List.mem_cons_of_mem _ hr'))
+              cases r <;> first
+                | exact absurd rfl (hnr _ (List.mem_cons_self) _ _)
+                | (simp only [unwindG]; exact hl)
+          rw [hg', List.reverse_append, unwindG_append, h2]
+          exact h1
+      cases top with
+      | exhausted => exact htop.elim
+      | setPosition ip pos =>
+        exact ⟨hc, htop, below st rfl (fun _ _ h => by cases h) [] (fun r h => by cases h) _
+          (by rw [hpop]; simp)⟩
+      | setLoopData id d =>
+        simp only
+        split
+        · exact ih _ _ (below _ rfl (fun _ _ h => by cases h) [] (fun r h => by cases h) _
+            (by rw [hpop]; simp))
+        · trivial
+      | setCaptureGroup id d =>
+        simp only
+        split
+        · apply ih
+          refine ⟨rest', by rw [hpop], hrec', ?_, ?_⟩
+          · rw [List.reverse_append, List.reverse_singleton, List.singleton_append] at hun
+            exact hun
+          · refine ⟨by simp [hag.1], ?_⟩
+            intro g hgn
+            have : id ≠ g := fun hh => hgn (hh ▸ htop)
+            simp only [Array.getElem?_setIfInBounds, this, if_false]
+            exact hag.2 g hgn
+        · trivial
+      | enterNonGreedyLoop lip orig d =>
+        simp only
+        split
+        · trivial
+        · split
+          · rename_i _ lid _ _ _ _ _ _
+            simp only [prepareToEnterLoop]
+            refine ⟨hc, htop, below _ rfl (fun _ _ h => by cases h)
+              [.setLoopData lid { d with entry := orig }, .setLoopData lid d] ?_ _ ?_⟩
+            · intro r hr
+              simp only [List.mem_cons, List.not_mem_nil, or_false] at hr
+              rcases hr with rfl | rfl <;> exact ⟨trivial, fun _ _ h => by cases h⟩
+            · rw [Array.toList_push, hset]; simp
+          · trivial
+        · trivial
+      | greedyLoop1Char k mn mx =>
+        simp only
+        split
+        · exact ih _ _ (below _ rfl (fun _ _ h => by cases h) [] (fun r h => by cases h) _
+            (by rw [hpop]; simp))
+        · generalize (if fwd = true then inp.nextLeftPos mx else inp.nextRightPos mx) = nm
+          cases nm with
+          | error e => trivial
+          | ok r =>
+            cases r with
+            | none => trivial
+            | some newmax =>
+              refine ⟨hc, htop, below st rfl (fun _ _ h => by cases h)
+                [.greedyLoop1Char k mn newmax] ?_ _ (by rw [hset]; simp)⟩
+              intro r hr
+              simp only [List.mem_singleton] at hr; subst hr
+              exact ⟨htop, fun _ _ h => by cases h⟩
+      | nonGreedyLoop1Char k mn mx =>
+        simp only
+        split
+        · exact ih _ _ (below _ rfl (fun _ _ h => by cases h) [] (fun r h => by cases h) _
+            (by rw [hpop]; simp))
+        · generalize (if fwd = true then inp.nextRightPos mn else inp.nextLeftPos mn) = nm
+          cases nm with
+          | error e => trivial
+          | ok r =>
+            cases r with
+            | none => trivial
+            | some newmin =>
+              refine ⟨hc, htop, below st rfl (fun _ _ h => by cases h)
+                [.nonGreedyLoop1Char k newmin mx] ?_ _ (by rw [hset]; simp)⟩
+              intro r hr
+              simp only [List.mem_singleton] at hr; subst hr
+              exact ⟨htop, fun _ _ h => by cases h⟩
+
+/-- **Frame + restoration.** For a program whose look-around bodies are confined (`lookConfined`), a
+run started with the stack `[Exhausted]`:
+* if it fails, the capture groups are exactly those it was started with;
+* if it matches inside a region (look-around body), only the groups of the region may differ.
+(Errors are not excluded here: `PostE True`.) -/
+theorem run_restores (hlc : lookConfined prog = true) (limit : Nat) :
+    ∀ sf (γ : Option Region × Array GroupData) ip pos fwd st bts steps peak,
+      RInv prog γ fwd ip pos st bts →
+      PostE True (RQM γ fwd) (RQF γ fwd) (run prog inp limit sf ip pos fwd st bts steps peak) :=
+  run_ruleE prog inp (RInv prog) (RInvB prog) RQM RQF rnest True
+    (fun _ _ _ _ _ _ h => rstep_vc hlc h)
+    (fun γ fwd st bts h => rbackLoop_vc γ fwd h.1 _ st bts h.2) limit
+
+/-- **`attempt_state_restored`** (groups): when a run from a fresh stack fails, the capture groups
+are those of the initial state. -/
+theorem attempt_groups_restored (hlc : lookConfined prog = true) (limit sf ip pos : Nat) (fwd : Bool)
+    (st : State) (steps peak : Nat) {st' : State} {s p : Nat}
+    (h : run prog inp limit sf ip pos fwd st #[.exhausted] steps peak = .failed st' s p) :
+    st'.groups = st.groups := by
+  have := run_restores (inp := inp) hlc limit sf (none, st.groups) ip pos fwd st #[.exhausted] steps peak
+    ⟨trivial, trivial, [], rfl, fun r hr => (by cases hr), rfl, rfl, fun _ _ => rfl⟩
+  rw [h] at this
+  exact this
+
+end Frame
 
 end Regress.VM.Bt
